@@ -9,7 +9,6 @@ func prop(p *Property) { properties[p.ID] = p }
 // Entries for properties that are registered above are ignored, so a property
 // whose check is still being built is listed here until its rules exist.
 var notApplicable = []naEntry{
-	{"C05", "Correctness of Next/Advance is a relation between runtime cursor values (two roaring cursors and two compressed-stream positions) over arbitrary call histories; no structural clause short of symbolic execution decides it, so static analysis gives no verdict (the wire-arity and length-prefix rules of C01/C04 protect the stream format it relies on but are not a verdict on navigation)."},
 	{"C17", "A metamorphic relation between the outputs of different merge trees: purely a value property over runtime data; its structural ingredients are already those checked under C02/C03/C08, and no static rule in reach decides the equality itself."},
 }
 
@@ -189,5 +188,17 @@ func init() {
 		Explanation: "DV-FACTOR-AGREE, CHUNK-INDEX (content coder), DV-SEPARATOR, DV-SECTION-COMPLETE, FIELDID-LANE, REMAP (DV-REMAP part), CLONE-DISCIPLINE, CACHE-COHERENT, RESET-COMPLETE (cloneInto) and the two doc-value pairs of WIRE-AGREE.",
 		NotCovered:  "the header binary search, chunk-cache logic across visiting orders beyond coherence, sorted term order (values)",
 		Uses:        []RuleUse{{"DV-FACTOR-AGREE", ""}, {"CHUNK-INDEX", ""}, {"DV-SEPARATOR", ""}, {"DV-SECTION-COMPLETE", ""}, {"FIELDID-LANE", ""}, {"REMAP", ""}, {"CLONE-DISCIPLINE", ""}, {"CACHE-COHERENT", ""}, {"WIRE-AGREE", ""}},
+	})
+}
+
+func init() {
+	prop(&Property{
+		ID:          "C05",
+		Title:       "Postings iterators navigate correctly under Next/Advance, exclusions and flags",
+		Technique:   "static analysis: SSA agreement rules between the stream writers and the iterator's read and skip paths (per-posting arity, byte-count prefix), flag-guarded decoder use (interprocedural), sticky end of iteration, Count/exclusion shape — structural necessary conditions only",
+		Level:       "Static rules deciding named NECESSARY conditions of navigation: the read path and both skip paths consume exactly what the writer emits per posting in each stream, locations are skipped by the recorded byte count, no flag combination reaches a missing decoder, the 1-hit cursor is consumed on every return, an exhausted cursor is never advanced, Count subtracts the excluded intersection, exclusions are applied into a fresh bitmap. WHICH posting Next/Advance(d) returns for a given history is a relation over runtime cursor values and is NOT decided.",
+		Explanation: "ENTRY-ARITY compares the per-posting shape written by tfEncoder/locEncoder (2 uvarints; byte-count prefix + 4 uvarints per location) with readFreqNormHasLocs, skipFreqNormReadHasLocs, readLocation, the location loop of nextAtOrAfter and the skip in currChunkNext. READER-FLAG-GUARD computes interprocedurally which iterator methods need includeLocs/includeFreqNorm and proves no exported method reaches an unguarded decoder use. ITER-END proves every return of the 1-hit branch leaves the hit consumed, every Actual.Next() is behind HasNext(), Count subtracts |postings ∩ except| for both encodings, and exclusions are applied as AndNot into a fresh bitmap. LENPREFIX-AGREE, CHUNK-AGREE (reader side), ONEHIT-AWARE, CACHE-COHERENT and STATE-AFTER-FALLIBLE cover the prefix, chunk index, encoding dispatch and chunk switching the navigation relies on.",
+		NotCovered:  "which posting is returned by Next/Advance for a given call history, the skip counting across chunks (sameChunkNexts arithmetic), lock-step advance of the two cursors under exclusions (values)",
+		Uses:        []RuleUse{{"ENTRY-ARITY", ""}, {"READER-FLAG-GUARD", ""}, {"ITER-END", ""}, {"LENPREFIX-AGREE", ""}, {"CHUNK-AGREE", ""}, {"ONEHIT-AWARE", ""}, {"CACHE-COHERENT", ""}, {"STATE-AFTER-FALLIBLE", ""}},
 	})
 }
